@@ -1,6 +1,7 @@
 package checks
 
 import (
+	"strings"
 	"bytes"
 	"context"
 	"fmt"
@@ -31,6 +32,9 @@ type C05Op struct {
 	Impl string `json:"impl,omitempty"`
 	LP   lk.LP  `json:"lp"`
 	Ref  int    `json:"ref"` // which earlier stored link a load refers to (modulo the number stored)
+	// ProtoOf > 0: store/compute with the prototype returned by Prototype() of the (ProtoOf-1)th stored link
+	// (when its codec is LP's), the usual way callers re-store a changed node; LP is then only the codec carrier.
+	ProtoOf int `json:"proto_of,omitempty"`
 }
 
 type C05Case struct {
@@ -51,6 +55,12 @@ func drawLP(t *rapid.T, allowV0 bool, minTrunc int) lk.LP {
 	}
 	h := rapid.SampledFrom(lk.Hashes).Draw(t, "hash")
 	lp := lk.LP{Version: 1, Codec: rapid.SampledFrom(lk.Codecs).Draw(t, "codec"), MhType: h.Code, MhLength: -1}
+	if h.Size < 0 {
+		// identity: the documented behaviour is that the length is ignored (the digest is the whole block)
+		if rapid.Bool().Draw(t, "idlen") {
+			lp.MhLength = rapid.IntRange(0, 80).Draw(t, "idlenv")
+		}
+	}
 	if h.Size > 0 {
 		switch rapid.IntRange(0, 3).Draw(t, "lenmode") {
 		case 0:
@@ -115,6 +125,7 @@ func c05Check(c C05Case, rec *evid.Rec) error {
 	impls := map[string]bool{}
 	protos := map[string]bool{}
 	storeThenLoad := false
+	reusedProto := false
 	steer := known.Active("C04-integral-float")
 
 	for i, op := range c.Ops {
@@ -138,8 +149,26 @@ func c05Check(c C05Case, rec *evid.Rec) error {
 				return fmt.Errorf("%s: building the node failed: %w", where, err)
 			}
 			impls[op.Impl] = true
+			var lp datamodel.LinkPrototype = op.LP.Proto()
+			if op.ProtoOf > 0 && len(stored) > 0 {
+				if s := stored[(op.ProtoOf-1)%len(stored)]; s.lp.Codec == op.LP.Codec {
+					var got datamodel.LinkPrototype
+					if err := evid.Guard("Link.Prototype", func() error { got = s.link.Prototype(); return nil }); err != nil {
+						return fmt.Errorf("%s: %w", where, err)
+					}
+					clp, ok := got.(cidlink.LinkPrototype)
+					if !ok {
+						return fmt.Errorf("%s: Prototype() of %s is a %T", where, s.link, got)
+					}
+					eff := lk.LP{Version: clp.Version, Codec: clp.Codec, MhType: clp.MhType, MhLength: clp.MhLength}
+					if eff.Version != s.lp.Version || eff.Codec != s.lp.Codec || eff.MhType != s.lp.MhType {
+						return fmt.Errorf("%s: Prototype() of a link stored with %s is %s", where, s.lp, eff)
+					}
+					lp, op.LP = got, eff
+					reusedProto = true
+				}
+			}
 			protos[op.LP.String()] = true
-			lp := op.LP.Proto()
 			var l2 datamodel.Link
 			if err := evid.Guard("ComputeLink", func() error { var e error; l2, e = lsys.ComputeLink(lp, n); return e }); err != nil {
 				return fmt.Errorf("%s: ComputeLink failed for %s: %w", where, v.Short(200), err)
@@ -249,7 +278,17 @@ func c05Check(c C05Case, rec *evid.Rec) error {
 	}
 	nt := storeThenLoad && (len(impls) >= 2 || len(protos) >= 2)
 	b, _ := jsonMarshal(c)
-	rec.Case(val.HashBytes(b), nt, "storage:"+c.Storage, fmt.Sprintf("ops:%d", len(c.Ops)/5*5))
+	cls := []string{"storage:" + c.Storage, fmt.Sprintf("ops:%d", len(c.Ops)/5*5)}
+	if reusedProto {
+		cls = append(cls, "reused-prototype-of-a-link")
+	}
+	for p := range protos {
+		if strings.Contains(p, "/mh=0x0/") {
+			cls = append(cls, "identity-hash")
+			break
+		}
+	}
+	rec.Case(val.HashBytes(b), nt, cls...)
 	if nt && rec.WantSample() && len(b) < 3000 {
 		rec.Sample(c)
 	}
@@ -271,6 +310,7 @@ var c05Part = evid.Part[C05Case]{
 		n := rapid.IntRange(1, 25).Draw(t, "nops")
 		nStored := 0
 		var pool []C05Op // earlier (value, lp) pairs to repeat with another implementation / order
+		var storedLPs []lk.LP
 		for i := 0; i < n; i++ {
 			kind := rapid.SampledFrom([]string{"store", "store", "compute", "load", "loadraw", "loadplusraw", "fill"}).Draw(t, "kind")
 			if kind != "compute" && nStored == 0 {
@@ -284,6 +324,11 @@ var c05Part = evid.Part[C05Case]{
 				if len(pool) > 0 && rapid.IntRange(0, 2).Draw(t, "repeat") == 0 {
 					prev := pool[rapid.IntRange(0, len(pool)-1).Draw(t, "which")]
 					op.V, op.LP = prev.V, prev.LP
+				} else if len(storedLPs) > 0 && rapid.IntRange(0, 3).Draw(t, "protoof") == 0 {
+					// a new value under the prototype taken from an earlier link
+					j := rapid.IntRange(0, len(storedLPs)-1).Draw(t, "protoofwhich")
+					op.ProtoOf, op.LP = j+1, storedLPs[j]
+					op.V = drawCodecValue(t, op.LP.Codec)
 				} else {
 					op.LP = drawLP(t, c.Private, 8)
 					op.V = drawCodecValue(t, op.LP.Codec)
@@ -291,6 +336,9 @@ var c05Part = evid.Part[C05Case]{
 				op.Perm = rapid.SliceOfN(rapid.Byte(), 0, 8).Draw(t, "perm")
 				op.Prog = rapid.SliceOfN(rapid.Byte(), 0, 8).Draw(t, "prog")
 				pool = append(pool, op)
+				if kind == "store" {
+					storedLPs = append(storedLPs, op.LP)
+				}
 			}
 			c.Ops = append(c.Ops, op)
 		}
